@@ -230,13 +230,22 @@ class Exec:
         fr = Frame(modqual, qual, clsqual, local_names=assigned_names(fdef))
         self.bind_params(fdef.args, args, kwargs, fr, modqual)
         fr.loops = {id(n): i for i, n in enumerate(loop_nodes(fdef))}
+        # generator functions are run eagerly: the values yielded, in order, as a list (the repository's generators are
+        # consumed once, front to back, and share no state with their consumer between two yields)
+        is_gen = any(isinstance(n, (ast.Yield, ast.YieldFrom)) for n in _own_nodes(fdef))
+        if is_gen:
+            fr.yielded = []
         self.call_depth += 1
         try:
             self.exec_block(fdef.body, fr)
         except _Return as r:
+            if is_gen:
+                return SeqIter(fr.yielded, 0)
             return r.v
         finally:
             self.call_depth -= 1
+        if is_gen:
+            return SeqIter(fr.yielded, 0)
         return None
 
     def bind_params(self, a, args, kwargs, fr, modqual):
@@ -352,6 +361,12 @@ class Exec:
 
     def st_Pass(self, s, fr):
         pass
+
+    def ev_Yield(self, e, fr):
+        if not hasattr(fr, "yielded"):
+            raise Unsupported("yield outside a generator function")
+        fr.yielded.append(self.eval(e.value, fr) if e.value is not None else None)
+        return None
 
     def st_Import(self, s, fr):
         for a in s.names:
@@ -954,6 +969,17 @@ class Exec:
         if hasattr(v, "_iterable"):
             return v._iterable(self)
         raise SymRaise("TypeError", f"{typetag(v)} object is not iterable")
+
+
+def _own_nodes(fdef):
+    """nodes of a function body without those of nested function / class definitions"""
+    stack = list(fdef.body)
+    while stack:
+        n = stack.pop()
+        yield n
+        for c in ast.iter_child_nodes(n):
+            if not isinstance(c, (ast.FunctionDef, ast.AsyncFunctionDef, ast.ClassDef, ast.Lambda)):
+                stack.append(c)
 
 
 def ast_load(t):
